@@ -20,6 +20,7 @@ func runC16(r *Report) {
 	ruleBoundsSign(r)
 	ruleHeapShape(r)
 	ruleSentinelForm(r, "pq", "skiplist")
+	ruleMergeAcceptsAnyCount(r)
 }
 
 func ruleSkiplistShape(r *Report) {
